@@ -202,6 +202,57 @@ theorem atr (N : Nat) (m : Spec.Ma) (hc : 0 ≤ c) (h : Scaled c P Q) (h' : Scal
 end Scaled
 end PS
 
+
+
+noncomputable section
+namespace PS
+namespace Scaled
+open ArithReal
+variable {c : ℝ} {P Q : PS ℝ}
+
+/-- a cumulative sum of a scaled stream is scaled (Ad, Vpt: `acc + value`, starting from zero) -/
+theorem cumulSum (N s : Nat) (h : Scaled c P Q) :
+    Scaled c (cumul N s Spec.zero (fun acc i => acc + P.val i)) (cumul N s Spec.zero (fun acc i => acc + Q.val i)) := by
+  refine ⟨rfl, fun i => ?_⟩
+  simp only [cumul, tabVal_eq]
+  have z0 : (Spec.zero : ℝ) = 0 := by simp [Spec.zero]
+  have key : ∀ k, recG (Spec.zero + Q.val s) (fun acc k => acc + Q.val (s + k + 1)) k
+      = c * recG (Spec.zero + P.val s) (fun acc k => acc + P.val (s + k + 1)) k := by
+    intro k
+    induction k with
+    | zero => simp only [recG, z0, h.2]; ring
+    | succ k ih =>
+      simp only [recG]
+      rw [ih, h.2]; ring
+  exact key _
+
+end Scaled
+end PS
+
+noncomputable section
+namespace PS
+namespace Scaled
+variable {c1 c2 : ℝ} {H H' L L' C C' V V' : PS ℝ}
+
+theorem mfm (hh : Scaled c1 H H') (hl : Scaled c1 L L') (hc : Scaled c1 C C') :
+    Scaled (c1 / c1) (Spec.mfm H L C) (Spec.mfm H' L' C') :=
+  div (sub (sub hc hl) (sub hh hc)) (sub hh hl)
+
+theorem mfv (hh : Scaled c1 H H') (hl : Scaled c1 L L') (hc : Scaled c1 C C') (hv : Scaled c2 V V') :
+    Scaled (c1 / c1 * c2) (Spec.mfv H L C V) (Spec.mfv H' L' C' V') := mul (mfm hh hl hc) hv
+
+/-- accumulation / distribution: a cumulative sum of money-flow volumes -/
+theorem ad (N : Nat) (hh : Scaled c1 H H') (hl : Scaled c1 L L') (hc : Scaled c1 C C') (hv : Scaled c2 V V') :
+    Scaled (c1 / c1 * c2) (Spec.ad N H L C V) (Spec.ad N H' L' C' V') := by
+  have hm := mfv hh hl hc hv
+  show Scaled _ (cumul N (Spec.mfv H L C V).start Spec.zero (fun acc i => acc + (Spec.mfv H L C V).val i))
+    (cumul N (Spec.mfv H' L' C' V').start Spec.zero (fun acc i => acc + (Spec.mfv H' L' C' V').val i))
+  rw [hm.start_eq]
+  exact cumulSum N _ hm
+
+end Scaled
+end PS
+
 /-- derive `Scaled ?c P Q` structurally; the factor is synthesised and compared with the expected one at the end -/
 macro "scaled_core" : tactic => `(tactic|
   (repeat' (first
@@ -222,6 +273,8 @@ macro "scaled_core" : tactic => `(tactic|
       | apply PS.Scaled.ema
       | apply PS.Scaled.rma
       | apply PS.Scaled.smma
+      | apply PS.Scaled.ad
+      | apply PS.Scaled.cumulSum
       | apply PS.Scaled.map_abs
       | apply PS.Scaled.map_sq
       | apply PS.Scaled.ite
